@@ -509,11 +509,11 @@ func (t *timeTicker) Stop() {
 }
 
 func (t *timeTicker) Next(now time.Time) time.Time {
-	next := now.Add(t.every)
 	if t.align {
-		next = next.Round(t.every)
+		// The aligned ticker fires on the multiples of every after now, see Start.
+		return now.Truncate(t.every).Add(t.every)
 	}
-	return next
+	return now.Add(t.every)
 }
 
 type cronTicker struct {
